@@ -9,7 +9,7 @@ import driver
 import values
 
 LEAN_MODULE = "Kio.Props.C13"
-THEOREMS = ["Kio.C13.shipped_coherent", "Kio.C13.shipped_defaults", "Kio.C13.derivable", "Kio.C13.class_count", "Kio.C13.dispatch_tables"]
+THEOREMS = ["Kio.C13.shipped_coherent", "Kio.C13.shipped_defaults", "Kio.C13.derivable", "Kio.C13.class_count", "Kio.C13.dispatch_tables", "Kio.C13.implicit_defaults"]
 
 KIND = {"PrimitiveField": "prim", "PrimitiveTupleField": "primArr", "EntityField": "ent", "EntityTupleField": "entArr"}
 
